@@ -155,8 +155,11 @@ impl Property for C12 {
     fn id(&self) -> &'static str {
         "C12"
     }
+    fn regimes(&self) -> &'static str {
+        crate::gen::REGIMES_FAMILY
+    }
     fn rule(&self) -> String {
-        "proptest: single right-hand-side instances of the model families (incl. the shared-parameter family) with N chosen so that N-(M+P) covers <0, 0, 1 and >1 (small N over-sampled), noise 1e-4..1e-1, weights, f32/f64, builder-made and hand-written; executed in the release build and again in the overflow-checked build of the harness (evidence key checked_profile). Oracle: fit_with_statistics Ok => N > M+P, weighted residuals = final residuals of the fit, reduced chi2 = |r_w|²/(N-M-P), regression standard error = sqrt(reduced chi2); N <= M+P or a failed fit => Err with the same termination as fit(); every model call of the statistics phase (identified by a dry run) made to fail, transient and persistent => Err; never a panic. Non-trivial: the fit itself succeeded (the statistics stage was reached)".into()
+        "proptest: single right-hand-side instances of the model families (incl. the shared-parameter family) with N chosen so that N-(M+P) covers <0, 0, 1 and >1 (small N over-sampled), noise 1e-4..1e-1, weights, f32/f64, builder-made and hand-written; executed in the release build and again in the overflow-checked build of the harness (evidence key checked_profile). Oracle: fit_with_statistics Ok => N > M+P, weighted residuals = final residuals of the fit, reduced chi2 = |r_w|²/(N-M-P), regression standard error = sqrt(reduced chi2); N <= M+P or a failed fit => Err with the same termination as fit(); every model call of the statistics phase (identified by a dry run) made to fail, transient and persistent => Err; never a panic. A quarter of the cases use generated optimizer settings (tolerances 0..1e-1, patience 1..40), and 'the fit failed' is decided by the harness' own list of successful termination reasons; nu up to 1200. Non-trivial: the fit itself succeeded (the statistics stage was reached)".into()
     }
     fn cases(&self, tier: Tier) -> usize {
         match tier {
